@@ -132,7 +132,27 @@ def _worker(check, ctx, indices, wfd, t_deadline, selftest_every):
                 if res2["digest"] != res["digest"]:
                     rec["nondet"] = [res["digest"], res2["digest"]]
                 rec["selftest"] = 1
-            out.write(json.dumps(rec) + "\n")
+            try:
+                line = json.dumps(rec)
+            except TypeError:
+                def bad(o, path):
+                    if isinstance(o, dict):
+                        for k_, v_ in o.items():
+                            if not isinstance(k_, (str, int, float, bool, type(None))):
+                                return "%s: key %r" % (path, k_)
+                            r_ = bad(v_, path + "/" + str(k_))
+                            if r_:
+                                return r_
+                    elif isinstance(o, (list, tuple)):
+                        for j_, v_ in enumerate(o):
+                            r_ = bad(v_, path + "/%d" % j_)
+                            if r_:
+                                return r_
+                    elif not isinstance(o, (str, int, float, bool, type(None))):
+                        return "%s: value of type %s" % (path, type(o).__name__)
+                    return None
+                raise HarnessError("run %d: result is not JSON-able at %s" % (i, bad(rec, "")))
+            out.write(line + "\n")
         out.write(json.dumps({"t": "done"}) + "\n")
         out.flush()
     except BaseException:
